@@ -58,7 +58,11 @@ PARTIAL = ("Theorems (over R, all sizes) cover the direct routines (Cholesky sou
            "still have no executable model (matrixInverse is outside this property's models): they are decided per run by the "
            "residual checker, and their InSitu-reuse histories by bit-equality with a fresh call (finding F-QR-INSITU-STALE-H for "
            "qr / eig without InitializeH).  "
-           "Runs that do not converge within the sweep cap of the harness's lock-step skeleton are not replayed.  The Float32 / "
+           "Runs that do not converge within the sweep cap of the harness's lock-step skeleton are not replayed.  Round 7 "
+           "added no theorem: it widened the tie of the Francis loop model to general matrices of size 6..10 with ComputeU whose "
+           "real 2x2 blocks start at row >= 4 (QRstep with more than three rows above the active block; residual stream and "
+           "whole-run replay), hands loop-model mismatches to the property oracle for a concrete failing input, and matches the "
+           "isolated stationary block [[a,b],[c,a]], bc > 0, of a non-symmetric input as F-QR-HANG.  The Float32 / "
            "Real32 Cholesky family is replayed on a binary32 carrier (no theorem for forced-PD there).")
 KF_PROPOSED = os.path.join(vlib.ROOT, "corpus/C05/known_findings_proposed.json")
 CORPUS = os.path.join(vlib.ROOT, "corpus/C05/corpus.json")
@@ -82,7 +86,22 @@ def pred_qr_hang_prone(inp):
         return False
     sym = all(v[i * c + j] == v[j * c + i] for i in range(r) for j in range(i))
     halfint = all(x == x and abs(x) <= 64 and (2 * x) == int(2 * x) for x in v)
-    return sym or halfint
+    return sym or halfint or _isolated_stationary_block(r, c, v)
+
+
+def _isolated_stationary_block(r, c, v):
+    """round 7: the INPUT is upper Hessenberg and carries an isolated diagonal block [[a,b],[c,a]] with b*c > 0 (zero
+    sub-diagonal entry above and below it): the Hessenberg reduction and the Francis steps on the other blocks never
+    touch its four entries, and the single-shift QRstep with shift a only swaps it (period 2) - the mechanism of F-QR-HANG
+    on a matrix that is neither symmetric nor half-integer (witness: corpus family kf-qr-hang-isolated-block)."""
+    h = lambda i, j: v[i * c + j]
+    if any(h(i, j) != 0 for i in range(r) for j in range(c) if i > j + 1):
+        return False
+    for i in range(r - 1):
+        if h(i, i) == h(i + 1, i + 1) and h(i, i + 1) * h(i + 1, i) > 0 and \
+                (i == 0 or h(i, i - 1) == 0) and (i + 2 == r or h(i + 2, i + 1) == 0):
+            return True
+    return False
 
 
 def pred_resid_within_stop_rule(inp):
@@ -233,7 +252,30 @@ def run(ctx):
                     if r.get("found") and r.get("is_iter") and r["idx"] < len(back) and \
                             not is_known(r["site"], r["class"], r.get("iter"), r["failure"]):
                         efound[back[r["idx"]]] = r
+        if name == "icases" and xbad:
+            # round 7: a broken tie of a loop model: hand the inputs (as fresh calls with all factors requested) to the
+            # property oracle on the implementation (U'U = I, U H U' = A, structure) to obtain a concrete failing input
+            its, back = [], []
+            for i in xbad[:8]:
+                hin = xraw[i].get("in") or {}
+                kd = {"qr": "qr", "symqr": "qr", "svd": "svd"}.get(hin.get("kind"))
+                if kd and hin.get("m"):
+                    its.append({"kind": kd, "m": hin["m"], "b1": True, "b2": kd == "svd", "sym": hin.get("kind") == "symqr",
+                                "path": hin.get("path") or "f64", "family": hin.get("family") or ""})
+                    back.append(i)
+            if its:
+                hh = run_hunt(ctx, binary, [], its, 0)
+                for r in (hh.get("handed") or []):
+                    if r.get("found") and r.get("is_iter") and r["idx"] < len(back) and \
+                            not is_known(r["site"], r["class"], r.get("iter"), r["failure"]):
+                        efound[back[r["idx"]]] = r
         for i in xbad[:5]:
+            if name == "icases" and i in efound:
+                r = efound[i]
+                ctx.violation({"rcase": {"iter": r.get("iter")}, key: xraw[i], "obligation": what, "site": r["site"],
+                               "failure": r["failure"]}, True,
+                              "%s violates the factorization property: %s (and differs from its loop model)" % (r["site"], r["failure"]))
+                continue
             if name == "ecases" and xraw[i].get("outcome") in ("panic", "epsilon-ignored"):
                 # observed on the implementation itself (regressions of the repaired F-EIG-INSITU-NOVEC-PANIC /
                 # F-EIG-EPSILON-DROPPED): the replayed input is the failing input
@@ -247,6 +289,12 @@ def run(ctx):
                 ctx.violation({"rcase": {"iter": r.get("iter")}, key: xraw[i], "obligation": what, "site": r["site"],
                                "failure": r["failure"]}, True,
                               "eigensystem violates the factorization property: %s (and differs from its model)" % r["failure"])
+                continue
+            if name == "cases32" and xraw[i].get("oracle"):
+                # round 7: the harness's own residual of the returned binary32 factors fails on this input
+                ctx.violation({key: xraw[i], "obligation": what, "failure": xraw[i]["oracle"]}, True,
+                              "cholesky violates the factorization property: %s (and differs from its binary32 model): %s" % (
+                                  xraw[i]["oracle"], json.dumps(xraw[i].get("in"))[:300]))
                 continue
             hist_found = name in ("icases", "hcases") and (xraw[i].get("outcome") == "differs-from-fresh")
             ctx.violation({key: xraw[i], "obligation": what}, hist_found,
